@@ -122,14 +122,14 @@ def pairsOf (nup : Nat) (idx : List Nat) : (todo j : Nat) → Except Err (List (
 section coords
 variable {K : Type} {d : Nat}
 
-/-- cache a vector in an array (identity function; keeps the driver from re-evaluating closure chains) -/
-def vmat (v : Vec d K) : Vec d K :=
-  let a : Array K := Array.ofFn v
-  fun i => if h : i.1 < a.size then a[i.1] else v i
+/-- a point is stored as first-order data (`Array K`, one entry per embedding coordinate) so that the native driver
+    evaluates every coordinate once; `ptVec`/`vecPt` convert from/to the function vectors the algebra is stated on -/
+def ptVec [Zero K] (p : Array K) : Vec d K := fun c => (p[c.1]?).getD 0
+def vecPt (v : Vec d K) : Array K := Array.ofFn v
 
-theorem vmat_eq (v : Vec d K) : vmat v = v := by
-  funext i
-  simp [vmat]
+theorem ptVec_vecPt [Zero K] (v : Vec d K) : ptVec (vecPt v) = v := by
+  funext c
+  simp [ptVec, vecPt]
 
 def vsub [Sub K] (a b : Vec d K) : Vec d K := fun c => a c - b c
 def sqNorm [Add K] [Zero K] [Mul K] (v : Vec d K) : K := sumFin d fun c => v c * v c
@@ -171,76 +171,77 @@ def alphaOf (global : Bool) (N : Nat) (dist : Nat → Nat → K) (sqrtO : K → 
 /-- `D[j] = (Y.col(*ind1) - Y.col(*ind2)).norm()`, `Rt[j] = alpha * distance(ind1, ind2)`,
     `D += tolerance`, `scale = (Rt - D)/D`, `Yd.col(j) = Y.col(*ind1) - Y.col(*ind2)` — all from the configuration
     BEFORE any update of this iteration -/
-def pairTerms (Y : Array (Vec d K)) (dist : Nat → Nat → K) (sqrtO : K → K) (alpha tol : K) :
-    List (Nat × Nat) → Except Err (List (K × Vec d K))
+def pairTerms (d : Nat) (Y : Array (Array K)) (dist : Nat → Nat → K) (sqrtO : K → K) (alpha tol : K) :
+    List (Nat × Nat) → Except Err (List (K × Array K))
   | [] => .ok []
   | (a, b) :: ps =>
     match Y[a]?, Y[b]? with
     | some ya, some yb =>
-      let yd := vmat (vsub ya yb)
-      let D := sqrtO (sqNorm yd)
+      let yd : Array K := vecPt (vsub (ptVec (d := d) ya) (ptVec yb))
+      let D := sqrtO (sqNorm (ptVec (d := d) yd))
       let R := alpha * dist a b
       if D + tol = 0 then .error .divzero else
-        match pairTerms Y dist sqrtO alpha tol ps with
+        match pairTerms d Y dist sqrtO alpha tol ps with
         | .error e => .error e
         | .ok rest => .ok ((scaleOf R D tol, yd) :: rest)
     | _, _ => .error .oob
 
 /-- the sequential update loop over the pairs -/
-def applyMoves (lam : K) : List (Nat × Nat) → List (K × Vec d K) → Array (Vec d K) → Array (Vec d K)
+def applyMoves (d : Nat) (lam : K) : List (Nat × Nat) → List (K × Array K) → Array (Array K) → Array (Array K)
   | (a, b) :: ps, (s, yd) :: ts, Y =>
-    let Y1 := Y.modify a fun y => vmat (moveI lam s y yd)
-    let Y2 := Y1.modify b fun y => vmat (moveJ lam s y yd)
-    applyMoves lam ps ts Y2
+    let Y1 := Y.modify a fun y => vecPt (moveI lam s (ptVec (d := d) y) (ptVec yd))
+    let Y2 := Y1.modify b fun y => vecPt (moveJ lam s (ptVec (d := d) y) (ptVec yd))
+    applyMoves d lam ps ts Y2
   | _, _, Y => Y
 
 /-- the configuration-side of one iteration for the given pairs -/
-def coordStep (Y : Array (Vec d K)) (dist : Nat → Nat → K) (sqrtO : K → K) (alpha tol lam : K)
-    (ps : List (Nat × Nat)) : Except Err (Array (Vec d K)) :=
-  match pairTerms Y dist sqrtO alpha tol ps with
+def coordStep (d : Nat) (Y : Array (Array K)) (dist : Nat → Nat → K) (sqrtO : K → K) (alpha tol lam : K)
+    (ps : List (Nat × Nat)) : Except Err (Array (Array K)) :=
+  match pairTerms d Y dist sqrtO alpha tol ps with
   | .error e => .error e
-  | .ok ts => .ok (applyMoves lam ps ts Y)
+  | .ok ts => .ok (applyMoves d lam ps ts Y)
 
 /-- everything the loop carries from one iteration to the next -/
-structure State (K : Type) (d : Nat) where
+structure State (K : Type) where
   idx : List Nat
-  Y : Array (Vec d K)
+  Y : Array (Array K)              -- one array of `d` coordinates per point
   lam : K
   draws : Nat                      -- uniform_random() calls so far
   trace : List (List (Nat × Nat))  -- pairs evaluated, most recent iteration first (observable through the callback)
 
-structure Input (K : Type) (d : Nat) where
+structure Input (K : Type) where
   N : Nat
+  d : Nat
   global : Bool
   nb : List (List Nat)
   nupReq : Nat
   maxIterReq : Nat
   tol : K
   dist : Nat → Nat → K
-  y0 : Array (Vec d K)
+  y0 : Array (Array K)
   shuffle : Nat → List Nat
   unif : Nat → K
   sqrtO : K → K
   floorO : K → Int
 
 /-- `floor(uniform_random() * (k - 1))` for the `c`-th draw (`k - 1` is computed in `int`) -/
-def floorPick (inp : Input K d) (k : Nat) (c : Nat) : Int :=
+def floorPick (inp : Input K) (k : Nat) (c : Nat) : Int :=
   inp.floorO (inp.unif c * ((((k : Int) - 1 : Int)) : K))
 
 /-- one full iteration `t` -/
-def iterate (inp : Input K d) (k nup maxIt : Nat) (alpha : K) (t : Nat) (s : State K d) : Except Err (State K d) :=
+def iterate (inp : Input K) (k nup maxIt : Nat) (alpha : K) (t : Nat) (s : State K) : Except Err (State K) :=
   match idxStep inp.global inp.nb k nup (inp.shuffle t) (floorPick inp k) s.draws s.idx with
   | .error e => .error e
   | .ok idx =>
     match pairsOf nup idx nup 0 with
     | .error e => .error e
     | .ok ps =>
-      match coordStep s.Y inp.dist inp.sqrtO alpha inp.tol s.lam ps with
+      match coordStep inp.d s.Y inp.dist inp.sqrtO alpha inp.tol s.lam ps with
       | .error e => .error e
       | .ok Y => .ok { idx := idx, Y := Y, lam := decay s.lam maxIt,
                        draws := s.draws + drawsPerIter inp.global nup, trace := ps :: s.trace }
 
-def loop (inp : Input K d) (k nup maxIt : Nat) (alpha : K) : (todo t : Nat) → State K d → Except Err (State K d)
+def loop (inp : Input K) (k nup maxIt : Nat) (alpha : K) : (todo t : Nat) → State K → Except Err (State K)
   | 0, _, s => .ok s
   | todo + 1, t, s =>
     match iterate inp k nup maxIt alpha t s with
@@ -248,7 +249,7 @@ def loop (inp : Input K d) (k nup maxIt : Nat) (alpha : K) : (todo t : Nat) → 
     | .ok s' => loop inp k nup maxIt alpha todo (t + 1) s'
 
 /-- `spe_embedding` -/
-def run (inp : Input K d) : Except Err (State K d) :=
+def run (inp : Input K) : Except Err (State K) :=
   match kOf inp.global inp.nb with
   | .error e => .error e
   | .ok k =>
